@@ -31,7 +31,8 @@ def run(spec):
     dest.mkdir(parents=True, exist_ok=True)
     out = {"status": "ok"}
     sizes = spec.get("chunk_sizes") or {}
-    np.random.seed(int(spec.get("seed", 0)))  # the CLI does the same; match_decoy uses the global state
+    if not spec.get("no_np_seed"):
+        np.random.seed(int(spec.get("seed", 0)))  # the CLI does the same; match_decoy uses the global state
     with core.chunk_sizes(**sizes):
         c = core.Call(pipeline.read_datasets, spec["paths"], int(spec.get("read_workers", spec.get("workers", 1))))
         if not c.ok:
